@@ -608,6 +608,11 @@ def bytes_item(st, b, i):
         # negative index: from the end; only for determined lengths
         ln = determined_int(st.pc, n)
         if ln is None:
+            if len(b.segs) == 1 and isinstance(b.segs[0], View):  # b[-k] of one view of symbolic length: item hi-k, IndexError if shorter
+                v = b.segs[0]
+                ok = n >= -ci
+                from pyvc.state import byte_at
+                return Cases([(ok, SInt(byte_at(st, v.arr, v.hi + ci))), (z3.Not(ok), RaiseExc(IndexError, "index out of range"))])
             raise EngineUnsupported("negative index into bytes of unknown length")
         ci += ln
         if ci < 0:
